@@ -781,11 +781,27 @@ func (e *Engine) Finish(t int, r result) error {
 	return nil
 }
 
-func (e *Engine) Abort(c int) {
-	e.st.Lock()
-	e.chgs[c-1].Abort()
-	e.st.Unlock()
+// Abort calls the real Change.Abort. A panic inside it ("change ... unexpectedly became unready", the known
+// finding recorded for C03) is recorded as an AbortPanic event; the state is unusable afterwards (the daemon
+// would have died half-way through the abort), so the case ends there.
+func (e *Engine) Abort(c int) (panicked bool) {
+	msg := func() (m string) {
+		e.st.Lock()
+		defer e.st.Unlock()
+		defer func() {
+			if r := recover(); r != nil {
+				m = fmt.Sprint(r)
+			}
+		}()
+		e.chgs[c-1].Abort()
+		return ""
+	}()
+	if msg != "" {
+		e.emit(event{Ev: "AbortPanic", C: c, CErr: msg})
+		return true
+	}
 	e.emit(event{Ev: "Abort", C: c})
+	return false
 }
 
 func (e *Engine) Tick() {
